@@ -63,6 +63,7 @@ def gen_case(rng: random.Random, tier: str):
             fields.append({"name": f"p{i}", "k": "ptrarr", "t": rng.choice(["uint8", "uint32", "T"]), "depth": 1, "n": rng.randint(1, 3)})
     if not any(f["k"] != "scalar" for f in fields):
         fields.append({"name": "pz", "k": "ptr", "t": "uint16", "depth": 1})
+    grow_at = rng.randint(2, 8) if rng.random() < 0.15 else None
     if rng.random() < 0.2:
         fields.insert(0, {"name": "cn", "k": "scalar", "t": "uint8"})
         for i in range(rng.randint(1, 2)):
@@ -106,6 +107,11 @@ def gen_case(rng: random.Random, tier: str):
             ops.append({"op": "chain", "s": s, "hops": rng.randint(2, 4)})
         else:
             ops.append({"op": "str", "s": s})
+    if grow_at is not None:
+        # the target structure T is extended (add_field) in the middle of the history, then the root is parsed again
+        ops[grow_at:grow_at] = [{"op": "grow"}, {"op": "parse"}]
+    if rng.random() < 0.3:
+        ops.insert(rng.randint(1, len(ops)), {"op": "twins", "s": rng.randrange(len(slots))})
     return {"cfg": cfg, "fields": fields, "slots": slots, "msize": msize, "img_seed": rng.getrandbits(32),
             "prewidth": rng.choice(list(W)) if rng.random() < 0.3 else None,
             "root_at": rng.getrandbits(16), "kind": rng.choice(["bytesio", "sim", "sim", "mmap", "buffered"]), "ops": ops,
@@ -357,8 +363,41 @@ def run_case(case, stats):
                     if not isinstance(pb, Pointer) or int.__index__(pb) != ab:
                         raise Violation("width", "pointer_value", f"{sl['f']}[{sl['j']}] parsed from a {op['buf']} object = {pb!r}, expected {ab}")
                     check_deref(pb, f_, f_["depth"], ab, f"{sl['f']}[{sl['j']}] of a root parsed from a {op['buf']} object via {op.get('form')}", img=bi)
+        elif k == "grow":
+            if not case.get("grown"):
+                for c_ in (cs, cs_ref):
+                    c_.T.add_field("zz", c_.uint8)
+                    c_.N.add_field("zz", c_.uint16)
+                case["grown"] = True
+                stats.count("probe.target_structures_extended_mid_history")
+            hist.append("grow")
         elif cur is None:
             continue
+        elif k == "twins":
+            # two roots parsed from the SAME stream object at the same place: what their pointers lead to are two
+            # independent instances (changing the target reached through one must not show through the other)
+            sl = case["slots"][op["s"]]
+            f = fmap[sl["f"]]
+            a = cur_addrs[(sl["f"], sl["j"])]
+            if f["t"] in ("T", "N") and f["depth"] == 1 and a != 0 and cur_at is not None:
+                try:
+                    stream.seek(cur_at)
+                    r1 = R(stream)
+                    stream.seek(cur_at)
+                    r2 = R(stream)
+                    t1, t2 = ptr_of(r1, sl).dereference(), ptr_of(r2, sl).dereference()
+                except Exception:  # noqa: BLE001
+                    t1 = t2 = None
+                if t1 is not None:
+                    stats.count("probe.targets_of_two_parses_compared")
+                    before = observe(t2, sizes=False)
+                    fld = "a" if f["t"] == "T" else "v"
+                    setattr(t1, fld, type(getattr(t1, fld))((int(getattr(t1, fld)) + 1) & 0xFF))
+                    if t1 is t2 or observe(t2, sizes=False) != before:
+                        raise Violation("dereference", "targets_of_two_parsed_instances_are_one_object",
+                                        f"{sl['f']}[{sl['j']}]: the {f['t']} reached through the pointers of two separately parsed roots "
+                                        f"(same stream, same address 0x{a:x}) is shared: changing one changed the other")
+            hist.append("twins")
         elif k == "chain":
             sl = case["slots"][op["s"]]
             f = fmap[sl["f"]]
@@ -488,7 +527,7 @@ def run_case(case, stats):
                     except Violation:
                         raise
                     except Exception as e:  # noqa: BLE001
-                        if exp[0] != "exc" and not (case["kind"] == "mmap" and isinstance(e, ValueError) and (a > len(image) or (cfg["align"] and a + 64 > len(image)))):
+                        if exp[0] != "exc" and a <= len(image) and not (case["kind"] == "mmap" and isinstance(e, ValueError) and (a > len(image) or (cfg["align"] and a + 64 > len(image)))):
                             raise Violation("dereference", "str_of_pointer", f"str(p) raised {type(e).__name__} but target parses: {exp}")
                     stats.count("evaluations")
         elif k == "seek":
